@@ -545,8 +545,7 @@ def read(prog, rep):
     # the parsing may sit in a helper of the package: it must get the path, its result must be returned, and it must not be memoised
     helpers = find_calls(fn, b, lambda t, n: t[0] == "call" and t[1][0] == "func" and t[1][1] in prog.functions)
     memo = []
-    for _st, _n, ht in helpers:
-        h = prog.functions[ht[1][1]]
+    for h in [fn] + [prog.functions[ht[1][1]] for _st, _n, ht in helpers]:
         if any("lru_cache" in d or d.endswith("cache") or "cached" in d for d in h.decorators):
             memo.append(h)
     rep.check(not memo, "C20.read", f"{q}:reads-the-file", fn.where(), "every call reads the file (no memoised loader)",
